@@ -120,7 +120,7 @@ def build_subject(quiet=True) -> Path:
 
 def ensure_shims_unlocked():
     sh = VERIF / "shim"
-    for out, src in (("crashshim.so", "crashshim.c"), ("vgate", "vgate.c")):
+    for out, src in (("crashshim.so", "crashshim.c"), ("vgate", "vgate.c"), ("rvmake", "rvmake.c")):
         o, s_ = sh / out, sh / src
         if s_.exists() and (not o.exists() or o.stat().st_mtime < s_.stat().st_mtime):
             p = subprocess.run(["make", "-C", str(sh), "-s"], stdout=subprocess.PIPE, stderr=subprocess.STDOUT, text=True)
@@ -134,7 +134,7 @@ def ensure_shims():
     """(Re)build shim/crashshim.so and shim/vgate when missing or older than their sources."""
     sh = VERIF / "shim"
     need = False
-    for out, src in (("crashshim.so", "crashshim.c"), ("vgate", "vgate.c")):
+    for out, src in (("crashshim.so", "crashshim.c"), ("vgate", "vgate.c"), ("rvmake", "rvmake.c")):
         o, s_ = sh / out, sh / src
         if s_.exists() and (not o.exists() or o.stat().st_mtime < s_.stat().st_mtime):
             need = True
